@@ -107,6 +107,15 @@ class CallMixin:
 
     def call_function(self, st, fn, args, kwargs, node=None):
         fn = loader.unwrap(fn)
+        import copy as _copy
+        if fn is _copy.copy and len(args) == 1:
+            v = args[0]
+            if isinstance(v, SLoc):      # shallow copy of a dict / set / list: a fresh container with the same content
+                new = st.alloc_container(v.kind)
+                st.heap.put(new.field, new.owner, st.heap.get(v.field, v.owner))
+                return [(st, new)]
+            if isinstance(v, (dict, list, set)):
+                return [(st, _copy.copy(v))]
         key = loader.func_key(fn)
         con = self.contracts.get(key)
         if con is not None and not (self.frames and self.frames[0].key == key and len(self.frames) == 1
@@ -156,6 +165,20 @@ class CallMixin:
             ref = st.alloc(cls)
             if args:
                 raise Unsupported(f"positional construction of record {cls.__name__}", node)
+            # protobuf defaults for the message's other fields (as far as the schema knows them)
+            for fd in getattr(getattr(cls, "DESCRIPTOR", None), "fields", []):
+                if fd.name in kwargs:
+                    continue
+                fk = self.field_key(st, ref, fd.name)
+                kind = st.heap.schema.get(fk)
+                if kind in ("ref", "enum"):
+                    st.heap.put(fk, ref.z, NULL)
+                elif kind == "str":
+                    st.heap.put(fk, ref.z, z3.StringVal(""))
+                elif kind == "int":
+                    st.heap.put(fk, ref.z, z3.IntVal(0))
+                elif kind == "bool":
+                    st.heap.put(fk, ref.z, z3.BoolVal(False))
             for k, v in kwargs.items():
                 self.write_field(st, ref, k, v)
             return [(st, ref)]
@@ -328,6 +351,8 @@ class CallMixin:
             if isinstance(v, (SLoc, SymView)):
                 return [(st, v)]    # a snapshot list of a symbolic container: only iteration is supported
             raise Unsupported(f"{f.__name__}({v!r})", node)
+        if f is dict and not args and kwargs and "**" not in kwargs:
+            return [(st, dict(kwargs))]        # dict(k=v, ...): a fresh dict with those string keys, in order
         if f in (dict, set):
             if not args and not kwargs:
                 return [(st, f())]
